@@ -27,6 +27,16 @@ func (g *Generator) generateEnumDefinitions(file *jen.File) {
 	}
 }
 
+// enumValueName is the Go name of an enum constant; a constructor named like its type gets the same
+// suffix as a struct named like its interface
+func enumValueName(name, enumType string) string {
+	if goify(name, true) == goify(enumType, true) {
+		return goify(name+"Obj", true)
+	}
+
+	return goify(name, true)
+}
+
 func (g *Generator) generateSpecificEnum(enumType string, enumValues []enum) []jen.Code {
 	total := make([]jen.Code, 0)
 
@@ -38,7 +48,7 @@ func (g *Generator) generateSpecificEnum(enumType string, enumValues []enum) []j
 	opc := make([]jen.Code, len(enumValues))
 	cases := make([]jen.Code, len(enumValues))
 	for i, id := range enumValues {
-		name := goify(id.Name, true)
+		name := enumValueName(id.Name, enumType)
 
 		opc[i] = jen.Id(name).Id(typeID).Op("=").Id(fmt.Sprintf("%#v", id.CRC))
 		cases[i] = jen.Case(jen.Id(typeID).Call(jen.Id(fmt.Sprintf("%#v", id.CRC)))).Block(jen.Return(jen.Lit(id.Name)))
